@@ -178,15 +178,16 @@ package decoration
 //@ func RegisteredDecorationNames
 //@   tags C17,C16,C19,C09
 //@   requires [lock-free-on-entry] !lockHeld
-//@   assigns ghost lockHeld, ghost it_visited, ghost it_count
+//@   assigns ghost lockHeld, ghost it_visited, ghost it_count, new(string)
 //@   ensures [lock-released] !lockHeld @C17
+//@   ensures [fresh-copy] fresh(result) && cap(result) >= len(result) @C17
 //@   ensures [sorted] forall i int, j int :: {result[i], result[j]} 0 <= i && i < j && j < len(result) ==> strLE(result[i], result[j]) @C17,C19
 //@   ensures [every-registered-name-exactly-once] len(result) == len(registry.table) && forall s Str :: {countIn(heap[string], result, len(result), s)} countIn(heap[string], result, len(result), s) == (has(registry.table, s) ? 1 : 0) @C17,C19
 //@   loop#1 invariant lockHeld && 0 <= i && i == it_count && i <= len(a) && len(a) == len(registry.table) && fresh(a)
 //@   loop#1 invariant forall s Str :: {it_visited[s]} (it_visited[s] ==> has(registry.table, s)) && countIn(heap[string], a, i, s) == (it_visited[s] ? 1 : 0)
 //@   loop#1 decreases len(a) - i
 //@   loop#1 unfold forall s Str :: countIn(heap[string], a, i, s)
-//@   loop#1 use forall s Str :: {countIn(heap[string], a, i - 1, s)} countIn_frame(at(loop1, heap[string]), heap[string], a, i - 1, s)
+//@   loop#1 use forall s Str :: {countIn(heap[string], a, i - 1, s)} countIn_frame(at(loop1, heap[string]), heap[string], a, a, i - 1, s)
 
 //@ -- complete(d): every string a render consults is non-empty (what Populate establishes); C03's "complete decoration"
 //@ pred complete(d Decoration) = d.CrossPiece != "" && d.HOuter != "" && d.HRule != "" && d.VHeader != "" && d.VBodyBorder != "" && d.VBodyInner != "" && d.TopLeft != "" && d.TopRight != "" && d.BottomLeft != "" && d.BottomRight != "" && d.LeftBodyRule != "" && d.RightBodyRule != "" && d.HTopDown != "" && d.BTopDown != "" && d.BBottomUp != "" && d.HBCross != "" && d.HBLeft != "" && d.HBRight != ""
